@@ -225,16 +225,27 @@ def setitem(src, tree, cls, prefix, bounds_first):
     sb = list(top.orelse)
     sc_cast = type_check(sb[:3], lambda e: T.dotted(e) == value)
     st = sb[3] if len(sb) == 4 else None
-    if not (st is not None and isinstance(st, ast.Assign) and isinstance(st.targets[0], ast.Subscript)
-            and T.dotted(st.targets[0].value) == "self._data" and T.dotted(st.targets[0].slice) == key
-            and T.dotted(st.value) == value):
-        T.fail(ATTR, fn, "scalar branch does not end with self._data[key] = value")
+    scal_conv = None
+    if (st is not None and isinstance(st, ast.Assign) and isinstance(st.targets[0], ast.Subscript)
+            and T.dotted(st.targets[0].value) == "self._data" and T.dotted(st.targets[0].slice) == key):
+        v = st.value
+        if T.dotted(v) == value:
+            scal_conv = False                  # the object itself is stored (the dense array converts on assignment)
+        elif (isinstance(v, ast.Call) and isinstance(v.func, ast.Attribute) and v.func.attr == "item" and not v.args
+              and isinstance(v.func.value, ast.Call) and T.dotted(v.func.value.func) in ("np.array", "np.asarray")
+              and len(v.func.value.args) == 1 and T.dotted(v.func.value.args[0]) == value
+              and len(v.func.value.keywords) == 1 and v.func.value.keywords[0].arg == "dtype"
+              and T.dotted(v.func.value.keywords[0].value) == "self.type.dtype"):
+            scal_conv = True                   # np.array(value, dtype=self.type.dtype).item()
+    if scal_conv is None:
+        T.fail(ATTR, fn, "scalar branch does not end with self._data[key] = value / np.array(value, dtype=self.type.dtype).item()")
     text = "Definition %s_is_vec (elemsize : Z) : bool := %s.\n" % (prefix, is_vec)
     text += "Definition %s_size_bad (n elemsize : Z) : bool := %s.\n" % (prefix, size_bad)
     text += "Definition %s_checks_all_components : bool := %s.\n" % (prefix, "true" if all_comps else "false")
     text += "Definition %s_vec_cast_ok (tv ta : ty) : bool := %s.\n" % (prefix, vec_cast)
     text += "Definition %s_scal_cast_ok (tv ta : ty) : bool := %s.\n" % (prefix, sc_cast)
     text += "Definition %s_vec_uses_attr_dtype : bool := %s.\n" % (prefix, "true" if attr_dtype else "false")
+    text += "Definition %s_scal_converted : bool := %s.\n" % (prefix, "true" if scal_conv else "false")
     return text, (cls + ".__setitem__", T.sha(src, fn))
 
 
